@@ -359,13 +359,13 @@ add({"name": "connect_drives", "file": "dfs/storage.cc",
      "rules": [(r"const auto limit = std::numeric_limits<drive_number>::max\(\);", "const surface_t limit = UINT_MAX;", 1),
                (r"DriveAllocation::PHYSICAL", "DriveAllocation_PHYSICAL", 1),
                (r"auto occ = \[this\]\(DFS::drive_number i\) -> bool\s*\{\s*return is_drive_connected\(i\);\s*\};", "struct occ_fn *occ = &h_occ;  /* lambda: is_drive_connected(i) */", 1),
-               (r"for \(DFS::drive_number n = DFS::drive_number\(([^)]*)\);\s*n < limit;\s*n = n\.next\(\)\)", r"for (surface_t n = (surface_t)(\1); n < limit; n = SurfaceSelector_next(n)) PHYS_OUTER_CONTRACT", 1),
+               (r"for \(DFS::drive_number n = DFS::drive_number\((.*?)\);\s*n < limit;\s*n = n\.next\(\)\)", r"for (surface_t n = (surface_t)(\1); n < limit; n = SurfaceSelector_next(n)) PHYS_OUTER_CONTRACT", 1),
                (r"drives\.size\(\)", "drives_n", 1),
                (r"for \(auto d : drives\)(\s*\{\s*connect_internal)", r"for (size_t di = 0; di < drives_n; ++di) PHYS_CONNECT_CONTRACT\1", 1),
                (r"for \(auto d : drives\)(\s*\{\s*for \(; n < limit)", r"for (size_t di = 0; di < drives_n; ++di) FIRST_OUTER_CONTRACT\1", 1),
                (r"connect_internal\(n, d\);", "connect_internal_model(n, di);", 2),
                (r"n = n\.next\(\)\.next\(\);", "n = SurfaceSelector_next(n); if (g_exc) return false; n = SurfaceSelector_next(n); if (g_exc) return false;  /* exception propagation */", 1),
-               (r"DFS::drive_number n\(([^)]*)\);", r"surface_t n = (surface_t)(\1);", 1),
+               (r"DFS::drive_number n\((.*?)\);", r"surface_t n = (surface_t)(\1);", 1), (r"static_cast<unsigned int>\(", "(unsigned int)(", ">=0"), (r"drives_\.size\(\)", "g_drives_size", ">=0"),
                (r"for \(; n < limit; n = n\.next\(\)\)", "for (; n < limit; n = SurfaceSelector_next(n)) FIRST_INNER_CONTRACT", 1),
                (r"is_drive_connected\(n\)", "is_drive_connected_model(n)", 1)],
      "dropped": []})
